@@ -213,3 +213,123 @@ def show_condition(pc) -> str:
     for s in sorted(sat):
         terms.append(" and ".join((n if v else f"not({n})") for n, v in zip(names, s)))
     return " OR ".join(f"[{t}]" for t in terms)
+
+
+# ---- local definitions ---------------------------------------------------------------
+def local_defs(func_node, name):
+    """Values assigned to plain local `name` anywhere in the function (not nested scopes)."""
+    out = []
+    for n in walk_no_nested(func_node):
+        if isinstance(n, ast.Assign) and len(n.targets) == 1 and isinstance(n.targets[0], ast.Name) and n.targets[0].id == name:
+            out.append(n.value)
+        elif isinstance(n, ast.AnnAssign) and isinstance(n.target, ast.Name) and n.target.id == name and n.value is not None:
+            out.append(n.value)
+    return out
+
+
+def resolve_local(func_node, node, depth=4):
+    """Follow `name` -> its unique local definition (up to `depth` hops); other nodes are returned unchanged."""
+    seen = 0
+    while isinstance(node, ast.Name) and seen < depth:
+        defs = local_defs(func_node, node.id)
+        if len(defs) != 1:
+            break
+        node = defs[0]
+        seen += 1
+    return node
+
+
+class _Subst(ast.NodeTransformer):
+    def __init__(self, mapping):
+        self.mapping = mapping
+
+    def visit_Name(self, node):
+        if node.id in self.mapping:
+            return ast.Name(id=self.mapping[node.id], ctx=node.ctx)
+        return node
+
+
+def alpha(node, mapping):
+    """Copy of `node` with plain names renamed according to `mapping`."""
+    import copy as _copy
+    return _Subst(mapping).visit(_copy.deepcopy(node))
+
+
+def ifexp_chain(node, mapping=None):
+    """Decision chain of a nested conditional expression: [(condition text | None, value text)], names alpha-renamed."""
+    out = []
+    while isinstance(node, ast.IfExp):
+        t, b = node.test, node.body
+        if mapping:
+            t, b = alpha(t, mapping), alpha(b, mapping)
+        ct, pol = canon_atom(strip_not(t)[0])
+        pol = pol == strip_not(t)[1]
+        out.append(((ct if pol else f"not({ct})"), norm(b)))
+        node = node.orelse
+    out.append((None, norm(alpha(node, mapping) if mapping else node)))
+    return out
+
+
+class Expander:
+    """Def-use expansion inside one function: a plain local that has exactly one definition in the
+    function (and is not a parameter) is replaced by that definition, recursively.  Rules that ask
+    "what value reaches this position" are thereby independent of how many temporaries a developer used."""
+
+    def __init__(self, func_node, max_depth=8):
+        self.fn = func_node
+        self.max_depth = max_depth
+        self.defs = {}
+        a = func_node.args
+        self.params = {x.arg for x in a.posonlyargs + a.args + a.kwonlyargs}
+        if a.vararg:
+            self.params.add(a.vararg.arg)
+        if a.kwarg:
+            self.params.add(a.kwarg.arg)
+        multi = set()
+        for n in walk_no_nested(func_node):
+            if isinstance(n, ast.Assign):
+                for t in n.targets:
+                    if isinstance(t, ast.Name):
+                        self.defs.setdefault(t.id, []).append(n.value)
+                    else:
+                        for x in ast.walk(t):
+                            if isinstance(x, ast.Name) and isinstance(x.ctx, ast.Store):
+                                multi.add(x.id)
+            elif isinstance(n, ast.AnnAssign) and isinstance(n.target, ast.Name) and n.value is not None:
+                self.defs.setdefault(n.target.id, []).append(n.value)
+            elif isinstance(n, (ast.AugAssign,)) and isinstance(n.target, ast.Name):
+                multi.add(n.target.id)
+            elif isinstance(n, (ast.For, ast.AsyncFor, ast.comprehension)):
+                for x in ast.walk(n.target):
+                    if isinstance(x, ast.Name):
+                        multi.add(x.id)
+            elif isinstance(n, (ast.With, ast.AsyncWith)):
+                for it in n.items:
+                    if it.optional_vars is not None:
+                        for x in ast.walk(it.optional_vars):
+                            if isinstance(x, ast.Name):
+                                multi.add(x.id)
+            elif isinstance(n, ast.ExceptHandler) and n.name:
+                multi.add(n.name)
+            elif isinstance(n, ast.NamedExpr) and isinstance(n.target, ast.Name):
+                multi.add(n.target.id)
+        for m in multi | self.params:
+            self.defs.pop(m, None)
+        self.unique = {k: v[0] for k, v in self.defs.items() if len(v) == 1}
+
+    def expand(self, node, _depth=0, _stack=()):
+        import copy as _copy
+        if node is None:
+            return None
+        ex = self
+
+        class T(ast.NodeTransformer):
+            def visit_Name(self, n):
+                if isinstance(n.ctx, ast.Load) and n.id in ex.unique and n.id not in _stack and _depth < ex.max_depth:
+                    return ex.expand(ex.unique[n.id], _depth + 1, _stack + (n.id,))
+                return n
+
+        return T().visit(_copy.deepcopy(node))
+
+    def text(self, node) -> str:
+        return norm(self.expand(node))
